@@ -58,7 +58,7 @@ def peel_run(n, pcap, seq, ffr):
     return outs, reps
 
 
-def build(rnd, which, ffr=False, with_prior=True):
+def build(rnd, which, ffr=False, with_prior=True, bad=None):
     ns = rnd.choice([3, 4, 5, 6]) if which == "orig" else rnd.choice([4, 5, 6])
     blk = 256
     sz = rnd.choice([1, 3, 8, 17, 40, 48, 68, 100, 128])
@@ -83,6 +83,9 @@ def build(rnd, which, ffr=False, with_prior=True):
         if seq: seq.insert(rnd.randrange(len(seq) + 1), rnd.choice(seq))
     if rnd.random() < 0.4: seq += sorted(lost)
     if rnd.random() < 0.2: seq += [n + pcap + 1, 0]
+    if bad:
+        for idx in bad(n, pcap):
+            seq.insert(rnd.randrange(len(seq) + 1), idx)
     s.meta = dict(n=n, sz=sz, img=img, seq=seq, lost=sorted(lost), ffr=ffr, pcap=pcap, mode=mode)
     s.meta["start_op"] = s.add("start %d %d" % (sz, n))
     s.meta["seg_ops"] = [s.add(session.seg_op(img, n, sz, i, ffr) if 0 < i <= n + pcap else "seg %d %s" % (i, "00" * sz)) for i in seq]
@@ -117,6 +120,8 @@ def oracle(s, out, which):
         if got != wv:
             msgs.append("fragment #%d (index %d): outcome %s, the peeling decoder says %s" % (k, seq[k], head.split(":")[0], wv)); break
         ops = session.expand_log(lg, s.blk)
+        if wv == "E" and ops:
+            msgs.append("fragment index %d is outside the legal range 1..%d but programs the flash: %s" % (seq[k], n + me["pcap"], lg[:2]))
         data_w = [(a, d) for kk, a, ln, d, z in ops if kk == "W" and a // s.slot == fw and a % s.slot >= session.DRO]
         for a, d in data_w:
             i = (a % s.slot - session.DRO) // sz
